@@ -109,6 +109,8 @@ static const mjbField mjb_fields[] = {
   MJB_FI("actuator", mjsActuator, biastype), MJB_FD("actuator", mjsActuator, biasprm),
   MJB_FI("actuator", mjsActuator, dyntype), MJB_FD("actuator", mjsActuator, dynprm),
   MJB_FI("actuator", mjsActuator, actdim), MJB_FB("actuator", mjsActuator, actearly),
+  MJB_FI("actuator", mjsActuator, ctrlspec), MJB_FD("actuator", mjsActuator, velrange),
+  MJB_FD("actuator", mjsActuator, ffrange),
   MJB_FI("actuator", mjsActuator, trntype), MJB_FD("actuator", mjsActuator, gear),
   MJB_FS("actuator", mjsActuator, target), MJB_FS("actuator", mjsActuator, refsite),
   MJB_FS("actuator", mjsActuator, slidersite), MJB_FD("actuator", mjsActuator, cranklength),
